@@ -96,7 +96,7 @@ func (u *Update) Render(names map[string]string, o RenderOpts) string {
 			clauses = append(clauses, kw+o.sp()+strings.Join(parts, o.osp()+","+o.tsp()))
 		}
 	}
-	return strings.Join(clauses, o.sp())
+	return o.pad() + strings.Join(clauses, o.sp()) + o.pad()
 }
 
 // Skeleton for distinctness.
